@@ -185,6 +185,32 @@ CHECKS["C03"] = dict(
          "external hints are excluded; opaque result types are diagnostics; the VM's write-once memory and range-check validation are trusted.",
     technique="Apalache bounded symbolic checking of compiler-generated CASM in AIR form (TLA+), plus TLC-enumerated hint fault plans replayed on cairo-vm with TLC trace validation",
     design_ref="3.6, 5/C03", engine="apalache+tlc+cvh")
+CHECKS["C12"] = dict(
+    level="model_checking",
+    text="Assembly is an explicit TLA+ model of how the Sierra program is assembled: salsa intern tables handing out ids in first-come order, the "
+         "memoised per-function Sierra query with blocking, warm-up workers on database clones, a prefix of unrelated queries (sequential or on "
+         "parallel clones), BFS assembly with first-use declaration order, id replacement. TLC checks Canonical (the replaced output is a function of "
+         "the sources alone) over ALL interleavings of 3 workers x 4 functions x 3 shared libfuncs with prefixes <= 2 (quick) / <= 3 (thorough), "
+         "and emits 4 160 histories (threads {1,2,4,16} x {seq,par} x {artifact,plain} x ordered prefixes of <= 3 queries). Sampled (quick: 6 projects "
+         "x 40) or all histories are executed on fresh RootDatabases inside rayon pools of the given size; diagnostics, Sierra (debug-name and "
+         "canonical ids, text and JSON), CASM, contract classes and CASM classes must be byte-identical across histories of a project.",
+    note="Real thread schedules are not controlled (repetitions at 16 threads only sample them); corpus projects and default settings only; a model "
+         "agreement check (AssemblyAgree: the spec's Reference order equals the real function / libfunc order) is a diagnostic.",
+    technique="TLA+ spec Assembly (TLC exhaustive over interleavings, BUG variants) as history generator; histories replayed on the real compiler under rayon pools",
+    design_ref="3.9, 5/C12", engine="tlc+cvh")
+CHECKS["C20"] = dict(
+    level="model_checking",
+    text="CrateCache models per-crate mode (source / cached blob generated under settings s), GenerateCache / UseCache (guarded by the metadata check) "
+         "/ DropCache / Edit / SetSettings / Query, with lowering as a set of (definition kind, payload) pairs and Encode shaped by definition kind; "
+         "TLC checks CacheTransparent / QueryTransparent exhaustively (<= 7 / <= 9 operations; 4 BUG variants) and emits cache/edit/query histories. "
+         "Each history runs on a database A (generate_crate_cache, cache_file for corelib and for a 9-module library crate that exposes many "
+         "definition kinds) and every dependent program of the current block (68 single-feature + 15 combined + 100 repository programs in quick) is "
+         "compared with a long-lived all-source database B on diagnostics, Sierra (debug-name and canonical ids, JSON) and CASM; a difference is "
+         "re-checked on a fresh pair of databases differing only in cache_file.",
+    note="The blob is generated by the same binary, plugins and flags; definition kinds are those reachable through the library crate and the "
+         "repository programs; differences that do not survive the fresh-pair re-check are incremental-only diagnostics (C13's subject).",
+    technique="TLA+ spec CrateCache (TLC exhaustive, BUG variants) as history generator; histories replayed with real crate caches vs an all-source database",
+    design_ref="3.9, 5/C20", engine="tlc+cvh")
 
 NOT_YET = "check not built yet in this session (see DESIGN.md section 9 build order); no claim is made"
 
